@@ -14,18 +14,21 @@
 //   O tau       findMotionForces (prescribed-motion forces, u-space)
 // P lines: Newton-Euler per body, equal-and-opposite parent reaction, the two routes agree, H' R = f.
 #include "treedyn_gen.h"
-static_assert(TREEDYN_GEN_VERSION == 10, "bump the version here when treedyn_gen.h changes");
+static_assert(TREEDYN_GEN_VERSION == 12, "bump the version here when treedyn_gen.h changes");
 using namespace SimTK;
 using td::TreeCase;
 
 static double sv6max(const SpatialVec& v) { double m = 0; for (int k = 0; k < 2; ++k) for (int j = 0; j < 3; ++j) m = std::max(m, std::fabs(v[k][j])); return m; }
 static bool finiteSV(const SpatialVec& v) { for (int k = 0; k < 2; ++k) for (int j = 0; j < 3; ++j) if (!std::isfinite(v[k][j])) return false; return true; }
 
-static void runCase(uint64_t caseSeed, int maxBodies, int flag) {
-    td::Options opt; opt.maxBodies = maxBodies; opt.zeroUProb = 0.15;
-    opt.allowMassless = true; opt.allowPrescribed = true; opt.allowConstraint = true; opt.forceLoneParticle = flag == 1;
+static long nCases = 0, nSkipExc = 0, nSkipIll = 0;
+static void runCase(uint64_t caseSeed, int code, int flag) {
+    td::Options opt; td::applyGenCode(code, opt); opt.zeroUProb = 0.15;
+    opt.allowMassless = true; opt.allowPrescribed = true; opt.allowConstraint = true;
+    ++nCases;
     std::unique_ptr<TreeCase> pc;
-    try { pc = td::buildCase(caseSeed, opt); } catch (const std::exception& e) { return; }   // singular configuration: not a case
+    // an exception here means a singular configuration (massless body / redundant constraint): not a case, but COUNTED
+    try { pc = td::buildCase(caseSeed, opt); } catch (const std::exception& e) { ++nSkipExc; vh::D("skipped.exception.build"); return; }
     TreeCase& c = *pc; State& s = c.state; const SimbodyMatterSubsystem& matter = *c.matter;
     const int nu = c.nu, nb = c.nb;
     vh::Rng& g = c.g;
@@ -34,7 +37,7 @@ static void runCase(uint64_t caseSeed, int maxBodies, int flag) {
     for (int i = 0; i <= nb; ++i) F[i] = g.below(4) ? SpatialVec(td::rvec(g, 2.0), td::rvec(g, 2.0)) : SpatialVec(Vec3(0), Vec3(0));
     c.discrete.setAllMobilityForces(s, f);
     c.discrete.setAllBodyForces(s, F);
-    try { c.sys->realize(s, Stage::Acceleration); } catch (const std::exception& e) { return; }
+    try { c.sys->realize(s, Stage::Acceleration); } catch (const std::exception& e) { ++nSkipExc; vh::D("skipped.exception.realize"); return; }
 
     // constraint forces (sign: they appear on the left-hand side, like the free-body method treats them)
     Vector_<SpatialVec> FC(nb + 1); Vector fC(nu);
@@ -51,9 +54,9 @@ static void runCase(uint64_t caseSeed, int maxBodies, int flag) {
     for (int i = 1; i <= nb; ++i) { ok = ok && finiteSV(RM[i]) && finiteSV(c.mobods[i].getBodyAcceleration(s)); amax = std::max(amax, sv6max(c.mobods[i].getBodyAcceleration(s))); }
     double lmax = 0;
     if (matter.getNumConstraints() > 0) lmax = td::vmaxabs(matter.getConstraintMultipliers(s));
-    if (!ok || amax > 1e5 || lmax > 1e4) { vh::D("skipped.illconditioned"); return; }   // e.g. a constraint between rigidly connected bodies
+    if (!ok || amax > 1e5 || lmax > 1e4) { ++nSkipIll; vh::D("skipped.illconditioned"); return; }   // e.g. a constraint between rigidly connected bodies
 
-    vh::Line in = vh::I("react"); in.s(std::to_string(caseSeed)).i(maxBodies).i(flag);
+    vh::Line in = vh::I("react"); in.s(std::to_string(caseSeed)).i(code).i(flag);
     td::exportTree(c, in);
     std::vector<int> presc(nb + 1, 0);
     for (int i = 1; i <= nb; ++i) { presc[i] = c.mobods[i].getUDotMotionMethod(s) != Motion::Free && c.mobods[i].getNumU(s) > 0; in.i(presc[i]); }
@@ -77,6 +80,13 @@ static void runCase(uint64_t caseSeed, int maxBodies, int flag) {
     { vh::Line o = vh::O("reactPF"); for (int i = 1; i <= nb; ++i) { RPF[i] = c.mobods[i].findMobilizerReactionOnParentAtFInGround(s); o.v(RPF[i][0], 3).v(RPF[i][1], 3); } o.emit(); }
     { vh::Line o = vh::O("freebody"); for (int i = 1; i <= nb; ++i) o.v(RFree[i][0], 3).v(RFree[i][1], 3); o.emit(); }
     vh::O("tau").v(tau, nu).emit();
+    // Ground (body 0): its "mobilizer" welds it to the universe; both routes and the isGround() branches of the per-body queries
+    const MobilizedBody& ground = c.mobods[0];
+    const SpatialVec G_P = ground.findMobilizerReactionOnParentAtOriginInGround(s), G_PF = ground.findMobilizerReactionOnParentAtFInGround(s);
+    const SpatialVec G_B = ground.findMobilizerReactionOnBodyAtOriginInGround(s), G_M = ground.findMobilizerReactionOnBodyAtMInGround(s);
+    vh::O("ground").v(RM[0][0], 3).v(RM[0][1], 3).v(RFree[0][0], 3).v(RFree[0][1], 3).v(G_B[0], 3).v(G_B[1], 3).v(G_M[0], 3).v(G_M[1], 3)
+                   .v(G_P[0], 3).v(G_P[1], 3).v(G_PF[0], 3).v(G_PF[1], 3).emit();
+    std::printf("O wf 1\n");
     td::emitTags(c);
     vh::D("constraint." + c.constraintTag);
     vh::D(std::string("massless.") + (c.nMassless ? "yes" : "no"));
@@ -84,6 +94,14 @@ static void runCase(uint64_t caseSeed, int maxBodies, int flag) {
 
     // ---- predicates on the implementation's own outputs
     const std::string key = "C14.tree";
+    {   // Ground: sum of forces on Ground = applied + constraint + its own reaction + the reactions its children exert on it = 0
+        SpatialVec tot = (F[0] - FC[0]) + RM[0];
+        double sc = std::max(1.0, sv6max(RM[0]));
+        for (int k = 1; k <= nb; ++k) if (c.parentOf[k] == 0) tot += c.mobods[k].findMobilizerReactionOnParentAtOriginInGround(s);
+        vh::P("newton_euler_ground", key + ".ground", sv6max(tot) / sc, 1e-9);
+        vh::P("ground_routes_and_queries_agree", key + ".ground_queries",
+              std::max(std::max(sv6max(RM[0] - RFree[0]), sv6max(RM[0] - G_B)), std::max(std::max(sv6max(G_M - G_B), sv6max(G_P + G_B)), sv6max(G_PF + G_B))) / sc, 1e-9);
+    }
     double fscale = 1;
     for (int i = 1; i <= nb; ++i) fscale = std::max(fscale, std::max(sv6max(RB[i]), sv6max(F[i] - FC[i])));
     double ne = 0, opp = 0, routes = 0, mshift = 0, proj = 0, neLP = 0, routesLP = 0; bool anyLP = false;
@@ -135,9 +153,10 @@ int main(int argc, char** argv) {
     if (args.mode == "replay") {
         static char buf[1 << 24];
         while (std::fgets(buf, sizeof buf, stdin)) {
+            if (std::strncmp(buf, "I summary ", 10) == 0) { std::fputs(buf, stdout); std::printf("O summary 1\n"); continue; }
             if (std::strncmp(buf, "I react ", 8) != 0) continue;
-            unsigned long long cs; int mb, fl;
-            if (std::sscanf(buf + 8, "%llu %d %d", &cs, &mb, &fl) == 3) runCase(cs, mb, fl);
+            unsigned long long cs; int code, fl;
+            if (std::sscanf(buf + 8, "%llu %d %d", &cs, &code, &fl) == 3) runCase(cs, code, fl);
         }
         return 0;
     }
@@ -147,7 +166,12 @@ int main(int argc, char** argv) {
         const uint64_t cs = master.next() >> 1;
         int maxB = 12;
         if (thorough && master.below(5) == 0) maxB = 40;
-        runCase(cs, maxB, k % 25 == 7 ? 1 : 0);     // one forced lone-particle configuration per 25 cases
+        const int fl = td::flagsForCase(k);           // guaranteed shares: lone particle, Weld, both, massless intermediate body
+        runCase(cs, td::genCode(maxB, fl), fl);
     }
+    // the share of generated cases that had to be dropped is itself a predicate (a regression that makes realize() throw on
+    // valid trees would otherwise shrink the sample unnoticed)
+    std::printf("I summary %ld %ld %ld\nO summary 1\n", nCases, nSkipExc, nSkipIll);
+    vh::P("dropped_cases_fraction", "C14.skipped", (double)(nSkipExc + nSkipIll) / std::max(1L, nCases), 0.02);
     return 0;
 }
